@@ -27,6 +27,34 @@ def gen_slot_ops(rng):
     return ops
 
 
+def real_acquire_loop():
+    """the acquire loop of handle_async_request, taken from the current source text and compiled as a coroutine function of its own
+    (it cannot be called separately in the class)"""
+    import ast
+    import os
+    import textwrap
+
+    import core
+    path = os.path.join(core.REPO, "httpcore", "_async", "http2.py")
+    tree = ast.parse(open(path).read())
+    for cls in tree.body:
+        if isinstance(cls, ast.ClassDef) and cls.name == "AsyncHTTP2Connection":
+            for fn in cls.body:
+                if isinstance(fn, ast.AsyncFunctionDef) and fn.name == "handle_async_request":
+                    for n in ast.walk(fn):
+                        if isinstance(n, ast.While) and "self._max_streams_semaphore.acquire()" in ast.unparse(n.body[0]):
+                            src = "async def _verif_acquire(self):\n" + textwrap.indent(ast.unparse(n), "    ")
+                            ns = {}
+                            exec(compile(src, "<acquire loop of handle_async_request>", "exec"), ns)
+                            return ns["_verif_acquire"]
+                    # 1.0.7 shape: a single acquire statement
+                    src = "async def _verif_acquire(self):\n    await self._max_streams_semaphore.acquire()"
+                    ns = {}
+                    exec(src, ns)
+                    return ns["_verif_acquire"]
+    raise RuntimeError("acquire loop not found")
+
+
 def run_slots_impl(ops):
     """-> list of state strings in the model's format (one per op actually applied), and the ops applied"""
     import asyncio
@@ -62,7 +90,6 @@ def run_slots_impl(ops):
         await resp.aread()
         await resp.aclose()
         held = []
-        blocked_task = None
         next_sid = [1001]
 
         async def settle():
@@ -71,33 +98,30 @@ def run_slots_impl(ops):
 
         def state(prefix=""):
             sem = conn._max_streams_semaphore._anyio_semaphore.value
-            blocked = blocked_task is not None and not blocked_task.done()
-            want = wanted[0] if blocked else conn._max_streams
-            return f"{prefix}sem={sem} held={len(held)} max={conn._max_streams} want={want} blocked={1 if blocked else 0}"
-        wanted = [conn._max_streams]
+            return f"{prefix}sem={sem} held={len(held)} max={conn._max_streams} debt={conn._max_streams_debt}"
         for op in ops[:3]:
             applied.append(op)
         # states after the three bootstrap ops are not observable one by one; report only the last
         out.append(state())
+        acquire_loop = real_acquire_loop()
         for op in ops[3:]:
-            blocked = blocked_task is not None and not blocked_task.done()
             if op.startswith("s"):
-                if blocked:
-                    continue
                 n = int(op[1:])
                 ev = h2.events.RemoteSettingsChanged()
                 old = conn._max_streams
                 ev.changed_settings = {h2.settings.SettingCodes.MAX_CONCURRENT_STREAMS:
                                        h2.settings.ChangedSetting(h2.settings.SettingCodes.MAX_CONCURRENT_STREAMS, old, n)}
-                new = min(n, 100)
-                if new:
-                    wanted[0] = new
-                blocked_task = asyncio.ensure_future(conn._receive_remote_settings_change(ev))
+                t = asyncio.ensure_future(conn._receive_remote_settings_change(ev))
                 await settle()
                 applied.append(op)
-                out.append(state())
+                if not t.done():
+                    t.cancel()
+                    await settle()
+                    out.append("BLOCKED " + state())      # the reader must never wait for the semaphore
+                else:
+                    out.append(state())
             elif op == "o":
-                t = asyncio.ensure_future(conn._max_streams_semaphore.acquire())
+                t = asyncio.ensure_future(acquire_loop(conn))
                 await settle()
                 applied.append(op)
                 if t.done():
@@ -119,9 +143,6 @@ def run_slots_impl(ops):
                 await settle()
                 applied.append(op)
                 out.append(state())
-        if blocked_task is not None and not blocked_task.done():
-            blocked_task.cancel()
-            await settle()
 
     asyncio.run(main())
     return out, applied
